@@ -2,6 +2,7 @@ package dnsmsg
 
 import (
 	"net"
+	"slices"
 
 	"github.com/AdguardTeam/golibs/syncutil"
 	"github.com/miekg/dns"
@@ -87,13 +88,28 @@ func (c *optCloner) clone(rr *dns.OPT) (clone *dns.OPT, full bool) {
 			optClone = opt
 		// TODO(a.garipov): Add more if necessary.
 		default:
-			return dns.Copy(rr).(*dns.OPT), false
+			return c.copyFull(rr), false
 		}
 
 		clone.Option = append(clone.Option, optClone)
 	}
 
 	return clone, true
+}
+
+// copyFull returns a deep copy of rr made without the pools.  [dns.Copy] copies
+// an EDNS0_SUBNET option shallowly, so that its address would be shared with
+// the original, and be overwritten once the copy is disposed and its option
+// structure is reused for another message.
+func (c *optCloner) copyFull(rr *dns.OPT) (clone *dns.OPT) {
+	clone = dns.Copy(rr).(*dns.OPT)
+	for _, opt := range clone.Option {
+		if sn, ok := opt.(*dns.EDNS0_SUBNET); ok {
+			sn.Address = slices.Clone(sn.Address)
+		}
+	}
+
+	return clone
 }
 
 // put returns structures from rr into c's pools.
